@@ -10,6 +10,7 @@ package core
 // written and no go command runs inside the nested module.
 
 import (
+	_ "embed"
 	"fmt"
 	"go/ast"
 	"go/parser"
@@ -41,6 +42,12 @@ type Ext struct {
 	ModDir  string // directory of the nested module relative to the repository ("tools/god")
 	ModPath string
 	Pkgs    map[string]*ExtPkg // by Rel
+
+	// VariantLevel/Hidden/Inlined mirror Prog: when the Prog the packages are
+	// loaded for is an inlined variant, the same normalisation is applied here.
+	VariantLevel int
+	Hidden       map[*ssa.Function]bool
+	Inlined      []string
 }
 
 type mapImporter map[string]*types.Package
@@ -189,7 +196,191 @@ func (p *Prog) LoadExt(modDir string, rels ...string) (*Ext, error) {
 		ep.Info = info
 		imp[ep.Path] = ep.Types
 	}
+	if p.VariantLevel > 0 {
+		ext.applyVariant(p.VariantLevel)
+	}
 	return ext, nil
+}
+
+//go:embed baseline_ext_funcs.txt
+var baselineExtFuncsTxt string
+
+// baselineExtFuncs: top-level functions of the in-process loaded leaf packages on
+// the tree the rule tables were confirmed on (same role as baseline_funcs.txt).
+var baselineExtFuncs = func() map[string]bool {
+	m := map[string]bool{}
+	for _, l := range strings.Split(baselineExtFuncsTxt, "\n") {
+		if l = strings.TrimSpace(l); l != "" {
+			m[l] = true
+		}
+	}
+	return m
+}()
+
+// FuncNames lists the top-level functions and methods of the loaded packages
+// (the content of baseline_ext_funcs.txt is this list on the confirmed tree).
+func (e *Ext) FuncNames() []string {
+	var out []string
+	for _, f := range e.AllFuncs() {
+		if f.Parent() == nil && f.Synthetic == "" {
+			out = append(out, FuncName(f))
+		}
+	}
+	sort.Strings(out)
+	return out
+}
+
+// applyVariant is Prog.Variant for the in-process loaded packages: unexported
+// helpers that are not in the baseline list are inlined into their same-package
+// callers (level 1: single plain static call; level 2: every plain static call
+// of a small helper), `defer h()` / `go h()` of such helpers become closures, and
+// helpers inlined at every use are hidden from Funcs/AllFuncs/Func.
+func (e *Ext) applyVariant(level int) {
+	e.VariantLevel, e.Hidden = level, map[*ssa.Function]bool{}
+	collect := func() []*ssa.Function {
+		var rels []string
+		for r := range e.Pkgs {
+			rels = append(rels, r)
+		}
+		sort.Strings(rels)
+		var out []*ssa.Function
+		for _, r := range rels {
+			if ep := e.Pkgs[r]; ep.SSA != nil {
+				out = append(out, SSAPkgFuncs(ep.SSA.Prog, ep.SSA)...)
+			}
+		}
+		return out
+	}
+	all := collect()
+	isNewHelper := func(f *ssa.Function) bool {
+		return f != nil && f.Parent() == nil && f.Blocks != nil && f.Object() != nil && !f.Object().Exported() && f.Synthetic == "" &&
+			f.Name() != "init" && f.Name() != "main" && !mayBeInvoked(f) && (IgnoreBaseline || !baselineExtFuncs[FuncName(f)])
+	}
+	closureized := map[*ssa.Function]bool{}
+	for _, f := range all {
+		for _, g := range ssa.ClosureizeDeferAndGo(f, func(callee *ssa.Function) bool { return callee.Pkg == f.Pkg && isNewHelper(callee) }) {
+			closureized[g] = true
+		}
+	}
+	if len(closureized) > 0 {
+		all = collect()
+	}
+	type use struct{ calls, other int }
+	uses := map[*ssa.Function]*use{}
+	get := func(f *ssa.Function) *use {
+		if uses[f] == nil {
+			uses[f] = &use{}
+		}
+		return uses[f]
+	}
+	for _, f := range all {
+		for _, b := range f.Blocks {
+			for _, in := range b.Instrs {
+				var callee *ssa.Function
+				if c, ok := in.(ssa.CallInstruction); ok {
+					if callee = c.Common().StaticCallee(); callee != nil {
+						_, plain := in.(*ssa.Call)
+						_, viaClosure := c.Common().Value.(*ssa.MakeClosure)
+						if plain && callee.Pkg == f.Pkg && !viaClosure {
+							get(callee).calls++
+						} else {
+							get(callee).other++
+						}
+					}
+				}
+				for _, op := range in.Operands(nil) {
+					if fv, ok := (*op).(*ssa.Function); ok && fv != callee {
+						get(fv).other++
+						if fv.Synthetic != "" && fv.Object() != nil {
+							if tf, ok := fv.Object().(*types.Func); ok {
+								if t := fv.Prog.FuncValue(tf); t != nil {
+									get(t).other++
+								}
+							}
+						}
+					}
+					if mc, ok := (*op).(*ssa.MakeClosure); ok {
+						if w, ok := mc.Fn.(*ssa.Function); ok && w.Synthetic != "" && w.Object() != nil {
+							if tf, ok := w.Object().(*types.Func); ok {
+								if t := w.Prog.FuncValue(tf); t != nil {
+									get(t).other++
+								}
+							}
+						}
+					}
+				}
+			}
+		}
+	}
+	size := func(f *ssa.Function) int {
+		n := 0
+		for _, b := range f.Blocks {
+			n += len(b.Instrs)
+		}
+		return n
+	}
+	candidate := func(f *ssa.Function) bool {
+		if !isNewHelper(f) {
+			return false
+		}
+		u := uses[f]
+		if u == nil || u.other > 0 || u.calls == 0 {
+			return false
+		}
+		if level == 1 {
+			return u.calls == 1
+		}
+		return size(f) <= 400
+	}
+	inlined := map[*ssa.Function]bool{}
+	for _, f := range all {
+		for _, g := range ssa.InlineStaticCalls(f, func(site *ssa.Call, callee *ssa.Function) bool {
+			return callee.Pkg == f.Pkg && candidate(callee)
+		}, 4) {
+			inlined[g] = true
+		}
+	}
+	for g := range closureized {
+		inlined[g] = true
+	}
+	left := map[*ssa.Function]bool{}
+	for _, f := range all {
+		for _, b := range f.Blocks {
+			for _, in := range b.Instrs {
+				for _, op := range in.Operands(nil) {
+					if fv, ok := (*op).(*ssa.Function); ok && inlined[fv] {
+						left[fv] = true
+					}
+				}
+			}
+		}
+	}
+	for g := range inlined {
+		if !left[g] {
+			e.Hidden[g] = true
+			e.Inlined = append(e.Inlined, FuncName(g))
+		}
+	}
+	sort.Strings(e.Inlined)
+}
+
+func (e *Ext) visible(fs []*ssa.Function) []*ssa.Function {
+	if len(e.Hidden) == 0 {
+		return fs
+	}
+	var out []*ssa.Function
+	for _, f := range fs {
+		hidden := false
+		for g := f; g != nil; g = g.Parent() {
+			if e.Hidden[g] {
+				hidden = true
+			}
+		}
+		if !hidden {
+			out = append(out, f)
+		}
+	}
+	return out
 }
 
 // Funcs lists the source functions (and closures) of the package in rel.
@@ -198,7 +389,7 @@ func (e *Ext) Funcs(rel string) []*ssa.Function {
 	if ep == nil || ep.SSA == nil {
 		return nil
 	}
-	return SSAPkgFuncs(ep.SSA.Prog, ep.SSA)
+	return e.visible(SSAPkgFuncs(ep.SSA.Prog, ep.SSA))
 }
 
 // AllFuncs lists the source functions of every loaded package.
@@ -222,7 +413,10 @@ func (e *Ext) Func(rel, recv, name string) *ssa.Function {
 		return nil
 	}
 	if recv == "" {
-		return ep.SSA.Func(name)
+		if f := ep.SSA.Func(name); f != nil && !e.Hidden[f] {
+			return f
+		}
+		return nil
 	}
 	t := ep.SSA.Type(recv)
 	if t == nil {
@@ -234,7 +428,10 @@ func (e *Ext) Func(rel, recv, name string) *ssa.Function {
 	}
 	for i := 0; i < named.NumMethods(); i++ {
 		if m := named.Method(i); m.Name() == name {
-			return ep.SSA.Prog.FuncValue(m)
+			if f := ep.SSA.Prog.FuncValue(m); f != nil && !e.Hidden[f] {
+				return f
+			}
+			return nil
 		}
 	}
 	return nil
